@@ -27,6 +27,7 @@ class FnSource:
     if_ord: dict = field(default_factory=dict)    # id(If) -> k   (pre-order)
     loop_ord: dict = field(default_factory=dict)  # id(For/While) -> "0", "0.0", "1", ... (nesting path)
     after_key: dict = field(default_factory=dict)  # id(stmt) -> "after <pattern> #k" (k-th statement of that pattern)
+    generic_key: dict = field(default_factory=dict)  # id(stmt) -> "assign a[] #k": element store into a, whatever the index
 
 
 def module_path(module: str) -> str:
@@ -179,6 +180,13 @@ def index_function(fs: FnSource):
                 k = pat_counts.get(pat, 0)
                 pat_counts[pat] = k + 1
                 fs.after_key[id(s)] = f"after {pat} #{k}"
+            if isinstance(s, (ast.Assign, ast.AnnAssign, ast.AugAssign)):
+                t = s.targets[0] if isinstance(s, ast.Assign) else s.target
+                if isinstance(t, ast.Subscript) and isinstance(t.value, ast.Name):
+                    gp = f"assign {t.value.id}[]"
+                    k = pat_counts.get(gp, 0)
+                    pat_counts[gp] = k + 1
+                    fs.generic_key[id(s)] = f"{gp} #{k}"
             if isinstance(s, ast.If):
                 fs.if_ord[id(s)] = nif
                 nif += 1
